@@ -186,7 +186,8 @@ def _eval(mod, case, ctx, open_ids):
     prev = signal.signal(signal.SIGVTALRM, _on_case_alarm)
     limit = getattr(mod, 'CASE_LIMIT', CASE_LIMIT_S)[getattr(ctx, 'tier', 'quick')]
     _GUARD['fired'] = False
-    signal.setitimer(signal.ITIMER_VIRTUAL, limit)
+    # periodic after the first expiry: the exception may be swallowed on its way out
+    signal.setitimer(signal.ITIMER_VIRTUAL, limit, 20)
     try:
         out = mod.prop(case, ctx)
     except _CaseHang:
